@@ -16,7 +16,7 @@ SPECS = [
          fn="read::cfi::UnwindTable::<'a, 'ctx, R, S>::evaluate", enum='read::cfi::CallFrameInstruction'),
     dict(id='cfi_instr_parse', prop='C06', rule='K4-cfa', kind='consteff',
          fn='read::cfi::CallFrameInstruction::<T>::parse', const_ty='constants::DwCfa',
-         extra_atoms={'parse_encoded_pointer': 'EH'}),
+         extra_atoms={'parse_encoded_pointer': 'EH'}, eq_consts_prefix='DW_CFA_'),
     dict(id='eh_pe_value', prop='C05', rule='K4-eh-pe', kind='consteff',
          fn='read::cfi::parse_encoded_value', const_ty='constants::DwEhPe'),
     dict(id='cie_parse', prop='C05', rule='K4-cie', kind='fneff',
@@ -48,7 +48,7 @@ SPECS = [
     dict(id='unit_header_parse', prop='C02', rule='K4-unit-header', kind='fneff', fn='read::unit::parse_unit_header'),
     # ---- C12 converters
     dict(id='convert_attr_value', prop='C12', rule='A-convert-attr', kind='arms',
-         fn="write::unit::convert::ConvertUnit::<'a, R>::convert_attribute_value", enum='read::unit::AttributeValue'),
+         fn="write::unit::convert::ConvertUnit::<'a, R>::convert_attribute_value", enum='read::unit::AttributeValue', which=1),
     dict(id='convert_expression', prop='C12', rule='A-convert-expr', kind='arms',
          fn='write::op::convert::<impl write::op::Expression>::from', enum='read::op::Operation'),
     dict(id='convert_cfi_instr', prop='C12', rule='A-convert-cfi', kind='arms',
@@ -73,7 +73,7 @@ SPECS = [
          fn='write::unit::AttributeValue::write', enum='write::unit::AttributeValue'),
     dict(id='w_attr_size', prop='C11', rule='S-attr-size', kind='sizeeff',
          fn='write::unit::AttributeValue::size', enum='write::unit::AttributeValue'),
-    dict(id='w_attr_form', prop='C11', rule='A-attr-form', kind='arms',
+    dict(id='w_attr_form', prop='C11', rule='A-attr-form', kind='constret',
          fn='write::unit::AttributeValue::form', enum='write::unit::AttributeValue'),
     # ---- C16 written lists
     dict(id='w_rnglists', prop='C16', rule='K1-rng-write', kind='eff',
@@ -119,6 +119,26 @@ SPECS = [
         "read::unit::EntriesCursor::<'abbrev, R>::next_sibling", "read::unit::EntriesTree::<'abbrev, R>::next",
         "read::unit::EntriesTree::<'abbrev, R>::root", 'read::abbrev::Abbreviations::insert', 'read::abbrev::Abbreviations::get',
         'read::abbrev::Abbreviations::parse', 'read::abbrev::Abbreviation::parse']),
+    dict(id='fn_readers', prop='C10', rule='F-readers', kind='fnsum', depth=1, fns=[
+        "<read::endian_slice::EndianSlice<'input, Endian> as read::reader::Reader>::skip",
+        "<read::endian_slice::EndianSlice<'input, Endian> as read::reader::Reader>::truncate",
+        "<read::endian_slice::EndianSlice<'input, Endian> as read::reader::Reader>::split",
+        "<read::endian_slice::EndianSlice<'input, Endian> as read::reader::Reader>::read_slice",
+        "<read::endian_slice::EndianSlice<'input, Endian> as read::reader::Reader>::offset_id",
+        "<read::endian_slice::EndianSlice<'input, Endian> as read::reader::Reader>::lookup_offset_id",
+        "<read::endian_slice::EndianSlice<'input, Endian> as read::reader::Reader>::find",
+        '<read::endian_reader::EndianReader<Endian, T> as read::reader::Reader>::skip',
+        '<read::endian_reader::EndianReader<Endian, T> as read::reader::Reader>::truncate',
+        '<read::endian_reader::EndianReader<Endian, T> as read::reader::Reader>::split',
+        '<read::endian_reader::EndianReader<Endian, T> as read::reader::Reader>::read_slice',
+        '<read::endian_reader::EndianReader<Endian, T> as read::reader::Reader>::offset_id',
+        '<read::endian_reader::EndianReader<Endian, T> as read::reader::Reader>::lookup_offset_id',
+        '<read::endian_reader::EndianReader<Endian, T> as read::reader::Reader>::find']),
+    dict(id='fn_unwind_context20', prop='C20', rule='F-unwind-context', kind='fnsum', fns=[
+        'read::cfi::UnwindContext::<T, S>::reset', 'read::cfi::UnwindContext::<T, S>::save_initial_rules',
+        'read::cfi::UnwindContext::<T, S>::initialize', "read::cfi::UnwindTable::<'a, 'ctx, R, S>::new",
+        'read::abbrev::AbbreviationsCache::get', 'read::abbrev::AbbreviationsCache::populate',
+        'read::line::LineRows::<R, Program, Offset>::new', 'read::line::LineRows::<R, Program, Offset>::resume']),
 ]
 
 
